@@ -143,6 +143,13 @@ theorem prepass_matched {keys : List String} {qs : List Q} {k : String} :
       · rintro ⟨q', hq' | hq', s', hs', hh⟩
         · subst hq'; cases hs'
         · exact ⟨q', hq', s', hs', hh⟩
+    | num dt sc vs =>
+      simp only [prepass, ih, List.mem_cons]
+      constructor
+      · rintro ⟨q', hq', hh⟩; exact ⟨q', Or.inr hq', hh⟩
+      · rintro ⟨q', hq' | hq', s', hs', hh⟩
+        · subst hq'; cases hs'
+        · exact ⟨q', hq', s', hs', hh⟩
 
 /-- `identities2` is empty exactly when every value was consumed. -/
 theorem prepass_rest_nil {keys : List String} {qs : List Q} :
@@ -181,6 +188,9 @@ theorem prepass_rest_nil {keys : List String} {qs : List Q} :
       simp only [prepass, List.cons_ne_nil, false_iff, List.mem_cons, forall_eq_or_imp, not_and]
       intro h; obtain ⟨s, hs, _⟩ := h; cases hs
     | int i =>
+      simp only [prepass, List.cons_ne_nil, false_iff, List.mem_cons, forall_eq_or_imp, not_and]
+      intro h; obtain ⟨s, hs, _⟩ := h; cases hs
+    | num dt sc vs =>
       simp only [prepass, List.cons_ne_nil, false_iff, List.mem_cons, forall_eq_or_imp, not_and]
       intro h; obtain ⟨s, hs, _⟩ := h; cases hs
 
@@ -269,9 +279,18 @@ theorem bare_str {q : Q} (h : q.bare = true) : ∃ t, q = .str t ∧ bareStr t =
   | str t => exact ⟨t, rfl, h⟩
   | pat a => simp [Q.bare] at h
   | int i => simp [Q.bare] at h
+  | num dt sc vs => simp [Q.bare] at h
 
 theorem str_matches {t s : String} : (Q.str t).matches s = true ↔ t = s := by
   simp [Q.matches]
+
+/-- The loop with its `break` computes the conjunction over all the values. -/
+theorem shortFlag_eq_all (qs : List Q) : shortFlag qs = qs.all Q.bare := by
+  induction qs with
+  | nil => rfl
+  | cons q rest ih =>
+    simp only [shortFlag, List.all_cons, ih]
+    cases q.bare <;> simp
 
 /-! ### `_filter_by_identity` -/
 
@@ -305,7 +324,7 @@ theorem mem_constructs {cs : List Construct} {m : List String} {c : Construct} :
 
 theorem mem_matched {cs : List Construct} {qs : List Q} {c : Construct} (hwf : WF cs) (hc : c ∈ cs) :
     c.key ∈ (identityCore Construct.idsFor cs qs).matched ↔ MatchesIdentity c qs := by
-  simp only [identityCore]
+  simp only [identityCore, shortFlag_eq_all]
   by_cases hE : (prepass (cs.map (·.key)) qs).2.2 = []
   · simp only [hE, List.isEmpty_nil, if_true]
     rw [keyMatch_iff hwf hc]
@@ -516,12 +535,31 @@ theorem mem_byKey {qs : List Q} {cs : List Construct} {c : Construct} :
 
 /-! ### properties -/
 
-def propOk (props : List (String × String)) (p : String × Option Q) : Bool :=
+theorem matchesPV_iff {q : Q} {v : PV} : q.matchesPV v = true ↔ PVMatch q v := by
+  cases v with
+  | str s => cases q <;> simp [Q.matchesPV, PVMatch]
+  | num dt sc vs =>
+    cases q with
+    | str s => simp [Q.matchesPV, PVMatch]
+    | pat a => simp [Q.matchesPV, PVMatch]
+    | int i =>
+      simp only [Q.matchesPV, PVMatch, Bool.and_eq_true, beq_iff_eq, reduceCtorEq, false_or]
+      constructor
+      · rintro ⟨⟨h1, h2⟩, h3⟩; exact ⟨h1, h2, i, h3, rfl⟩
+      · rintro ⟨h1, h2, j, h3, h4⟩; cases h4; exact ⟨⟨h1, h2⟩, h3⟩
+    | num dt' sc' vs' =>
+      simp only [Q.matchesPV, PVMatch, Bool.and_eq_true, beq_iff_eq, Q.num.injEq, reduceCtorEq, and_false,
+        exists_const, or_false]
+      constructor
+      · rintro ⟨⟨h1, h2⟩, h3⟩; exact ⟨h1, h2, h3⟩
+      · rintro ⟨h1, h2, h3⟩; exact ⟨⟨h1, h2⟩, h3⟩
+
+def propOk (props : List (String × PV)) (p : String × Option Q) : Bool :=
   match props.lookup p.1 with
   | none => false
   | some v1 => match p.2 with
     | none => true
-    | some q => q.matches v1
+    | some q => q.matchesPV v1
 
 theorem propOk_iff {c : Construct} {p : String × Option Q} : propOk c.props p = true ↔ PropSat c p := by
   simp only [propOk, PropSat]
@@ -530,9 +568,9 @@ theorem propOk_iff {c : Construct} {p : String × Option Q} : propOk c.props p =
   | some v1 =>
     cases hp : p.2 with
     | none => simp
-    | some q => simp
+    | some q => simp [matchesPV_iff]
 
-theorem propLoop_and {props : List (String × String)} {ps : List (String × Option Q)} {ok : Bool} :
+theorem propLoop_and {props : List (String × PV)} {ps : List (String × Option Q)} {ok : Bool} :
     propLoop false props ps ok = if ps = [] then ok else ps.all (propOk props) := by
   induction ps generalizing ok with
   | nil => simp [propLoop]
@@ -547,7 +585,7 @@ theorem propLoop_and {props : List (String × String)} {ps : List (String × Opt
       | nil => simp
       | cons a l => simp
 
-theorem propLoop_or {props : List (String × String)} {ps : List (String × Option Q)} {ok : Bool} :
+theorem propLoop_or {props : List (String × PV)} {ps : List (String × Option Q)} {ok : Bool} :
     propLoop true props ps ok = if ps = [] then ok else ps.any (propOk props) := by
   induction ps generalizing ok with
   | nil => simp [propLoop]
@@ -700,6 +738,8 @@ theorem runFilter_sublist {dict : Bool} {ctx : Ctx} {src : List Construct} {f : 
   | ncvar qs => simp only [runFilter, byNc]; split <;> exact List.filter_sublist
   | ncdim qs => simp only [runFilter, byNc]; split <;> exact List.filter_sublist
   | data => exact byType_sublist
+  | cell qs => simp only [runFilter, byComponent]; split <;> exact List.filter_sublist
+  | connectivity qs => simp only [runFilter, byComponent]; split <;> exact List.filter_sublist
 
 theorem mem_runFilter {dict : Bool} {ctx : Ctx} {f : Filter} {cs : List Construct} {c : Construct}
     (hwf : WF cs) : c ∈ runFilter dict ctx ctx.base f cs ↔ c ∈ cs ∧ Sat ctx f c := by
@@ -716,6 +756,8 @@ theorem mem_runFilter {dict : Bool} {ctx : Ctx} {f : Filter} {cs : List Construc
   | ncvar qs => exact mem_byNc
   | ncdim qs => exact mem_byNc
   | data => exact mem_byData
+  | cell qs => exact mem_byComponent
+  | connectivity qs => exact mem_byComponent
 
 /-! ### chains -/
 
@@ -964,17 +1006,18 @@ open Cfdm.Select
 
 def mkC (key : String) (t : CType) (pre body post : List String) (axes : Option (List String)) : Construct :=
   { key := key, ctype := t, idPre := pre, idBody := body, idPost := post,
-    hasProps := true, props := [], axes := axes, size := none, measure := none, method := none,
-    hasNcvar := true, ncvar := none, hasNcdim := false, ncdim := none }
+    hasProps := true, props := [], axes := axes, cmAxes := none, size := none, measure := none, method := none,
+    cell := none, connectivity := none, hasNcvar := true, ncvar := none, hasNcdim := false, ncdim := none }
 
 def mkAxis (key : String) (ncdim : String) (size : Nat) : Construct :=
   { key := key, ctype := .domain_axis, idPre := [], idBody := ["ncdim%" ++ ncdim], idPost := [],
-    hasProps := false, props := [], axes := none, size := some size, measure := none, method := none,
+    hasProps := false, props := [], axes := none, cmAxes := none, size := some size, measure := none, method := none, cell := none, connectivity := none,
     hasNcvar := false, ncvar := none, hasNcdim := true, ncdim := some ncdim }
 
 def lat : Construct :=
   { mkC "dimensioncoordinate0" .dimension_coordinate [] ["latitude", "units=degrees_north", "ncvar%lat"]
-      ["ncvar%lat_bnds"] (some ["domainaxis0"]) with props := [("standard_name", "latitude"), ("units", "degrees_north")] }
+      ["ncvar%lat_bnds"] (some ["domainaxis0"]) with props := [("standard_name", .str "latitude"), ("units", .str "degrees_north"),
+        ("valid_max", .num "int64" true [90])] }
 def lon : Construct :=
   mkC "dimensioncoordinate1" .dimension_coordinate [] ["longitude", "ncvar%lon"] [] (some ["domainaxis1"])
 /-- a cell measure with a measure *and* a standard name -/
@@ -984,12 +1027,25 @@ def area : Construct :=
 /-- a coordinate with a long name whose bounds have a standard name of their own -/
 def aux : Construct :=
   mkC "auxiliarycoordinate0" .auxiliary_coordinate [] ["long_name=x"] ["foo", "standard_name=foo"] (some ["domainaxis1"])
+def topo : Construct :=
+  { mkC "domaintopology0" .domain_topology ["cell:face"] ["ncvar%mesh"] [] (some ["domainaxis0"]) with cell := some "face" }
 def ax0 : Construct := mkAxis "domainaxis0" "lat" 5
 def ax1 : Construct := mkAxis "domainaxis1" "lon" 8
 
 def fld : List Construct := [lat, lon, area, aux, ax0, ax1]
 def ctx : Ctx := ⟨fld, ["domainaxis0", "domainaxis1"]⟩
 
+/-- `domainaxis0: mean` and `domainaxis1: maximum` -/
+def cm0 : Construct :=
+  { mkC "cellmethod0" .cell_method [] ["method:mean"] [] none with
+      hasProps := false, hasNcvar := false, method := some "mean", cmAxes := some ["domainaxis0"] }
+def cm1 : Construct :=
+  { mkC "cellmethod1" .cell_method [] ["method:maximum"] [] none with
+      hasProps := false, hasNcvar := false, method := some "maximum", cmAxes := some ["domainaxis1"] }
+def fld2 : List Construct := fld ++ [cm0, cm1]
+def ctx2 : Ctx := ⟨fld2, ["domainaxis0", "domainaxis1"]⟩
+
 theorem fld_wf : WF fld := ⟨by decide, by decide, by decide, by decide⟩
+theorem fld2_wf : WF fld2 := ⟨by decide, by decide, by decide, by decide⟩
 
 end Cfdm.Select.Examples
